@@ -13,7 +13,8 @@
    since[a] counts selections since a's own last selection: the starvation bound is a state invariant. *)
 EXTENDS Integers, Sequences, FiniteSets, TLC, Json
 
-CONSTANTS N, Policy, Mct, Aging, Rotate, Advances, MaxNow, MaxDepth
+CONSTANTS N, Policy, Mct, Aging, Rotate, Advances, MaxNow, MaxDepth,
+          AllowLeave     \* TRUE: the driver may take an agent out of the queue (its bookkeeping entries stay)
 
 Agents == 1..N
 
@@ -69,7 +70,13 @@ Advance(dt) == /\ now' = now + dt /\ now + dt >= 0 /\ now + dt <= MaxNow
                /\ last' = [op |-> "advance", dt |-> dt]
                /\ UNCHANGED <<queue, lastran, consec, since, pend>>
 
-Next == Select \/ Yield \/ \E dt \in Advances : Advance(dt)
+\* the driver removes an agent from the queue (e.g. it finished); last-ran / consecutive entries of that agent remain
+Leave(a) == /\ AllowLeave /\ pend.agent = 0 /\ Len(queue) > 1 /\ \E i \in 1..Len(queue) : queue[i] = a
+            /\ queue' = SelectSeq(queue, LAMBDA x : x # a)
+            /\ last' = [op |-> "leave", agent |-> a]
+            /\ UNCHANGED <<lastran, consec, now, since, pend>>
+
+Next == Select \/ Yield \/ (\E dt \in Advances : Advance(dt)) \/ (\E a \in Agents : Leave(a))
 Spec == Init /\ [][Next]_vars
 Fair == Spec /\ WF_vars(Select) /\ WF_vars(Yield)
 
@@ -77,15 +84,17 @@ Fair == Spec /\ WF_vars(Select) /\ WF_vars(Yield)
 DepthOK == TLCGet("level") <= MaxDepth
 
 \* C17 clauses
+Queued == {queue[i] : i \in 1..Len(queue)}
 ChosenEligibleOrReset ==
     pend.agent # 0 =>
       /\ \E i \in 1..Len(queue) : queue[i] = pend.agent
       /\ \/ (pend.reason # "RESET_CONSEC" /\ consec[pend.agent] < Mct)
          \/ (pend.reason = "RESET_CONSEC" /\ Eligible(queue, consec) = {}
-             /\ pend.agent = MinOf(Agents))
-WaitBound == \A a \in Agents : since[a] <= Bound
+             /\ pend.agent = MinOf(Queued))
+WaitBound == \A a \in Queued : since[a] <= Bound
 CountersBounded == \A a \in Agents : consec[a] <= Mct
-QueueIsPermutation == Len(queue) = N /\ {queue[i] : i \in 1..N} = Agents
+QueueIsPermutation == /\ Len(queue) = Cardinality(Queued) /\ Queued \subseteq Agents /\ Queued # {}
+                      /\ (~AllowLeave => Queued = Agents)
 \* liveness on the unconstrained spec: every agent is selected again and again
 EveryoneRuns == \A a \in Agents : []<>(pend.agent = a)
 
